@@ -3,11 +3,12 @@ import HapVerif.Drv.Crypto
 import HapVerif.Drv.SecureFrame
 import HapVerif.Drv.Pdu
 import HapVerif.Drv.Http
+import HapVerif.Drv.Tlv8Struct
 
 /-! Line protocol: one operation per stdin line -> one canonical line on stdout. -/
 
 def handlers : List (List String → Option String) :=
-  [HapVerif.Drv.Tlv.handle, HapVerif.Drv.Crypto.handle, HapVerif.Drv.SecureFrame.handle, HapVerif.Drv.Pdu.handle, HapVerif.Drv.Http.handle]
+  [HapVerif.Drv.Tlv.handle, HapVerif.Drv.Crypto.handle, HapVerif.Drv.SecureFrame.handle, HapVerif.Drv.Pdu.handle, HapVerif.Drv.Http.handle, HapVerif.Drv.Tlv8Struct.handle]
 
 def dispatch (toks : List String) : String :=
   match handlers.findSome? (fun h => h toks) with
